@@ -454,3 +454,11 @@ func init() {
 	mutant("flush-stops-at-first-blocked", "completion-closes-stream", "serverConn.go", "		if s.responded && !s.handlerRunning && s.hasMoreToSend() && sc.sendData(s) {\n			done = append(done, s)\n		}", "		if s.responded && !s.handlerRunning && s.hasMoreToSend() {\n			if !sc.sendData(s) {\n				break\n			}\n			done = append(done, s)\n		}")
 	mutant("flush-closes-inside-walk", "completion-closes-stream", "serverConn.go", "		if s.responded && !s.handlerRunning && s.hasMoreToSend() && sc.sendData(s) {\n			done = append(done, s)\n		}", "		if s.responded && !s.handlerRunning && s.hasMoreToSend() && sc.sendData(s) {\n			done = append(done, s)\n			closeStream(s)\n		}")
 }
+
+func init() {
+	mutant("oversized-insert-skipped", "hpack-table-accounting", "hpack.go", "	// append a copy\n	hf2 := AcquireHeaderField()", "	if hf.Size() > hp.maxTableSize {\n		return\n	}\n\n	// append a copy\n	hf2 := AcquireHeaderField()")
+}
+
+func init() {
+	mutant("resume-skips-graceful-close", "frame-step-order", "serverConn.go", "				if sc.sendData(strm) {\n					strm.SetState(StreamStateClosed)\n				}\n			}\n\n			if strm.State() == StreamStateClosed {", "				if sc.sendData(strm) {\n					strm.SetState(StreamStateClosed)\n					closeStream(strm)\n\n					continue\n				}\n			}\n\n			if strm.State() == StreamStateClosed {")
+}
